@@ -484,7 +484,11 @@ def replay_num(rec):
     # (for strings outside the grammar a predicted raise is not compared: the DIP atom parser ignores
     #  trailing text such as a stray parenthesis, which the token-level machine does not model)
     m = rec["mach"]
-    if m["k"] != "skip" and "custom_unit_env" not in rec["tags"] and not (cls == "ill" and m["k"] == "raise"):
+    # (nor a string with a blank-delimited operator at the edge of an argument: the argument text is stripped,
+    #  so ' - ' can only be written as an operator in the middle of a text)
+    edge = any((toks[i] in NUM_OP) and (i == 0 or toks[i - 1] in ("(", "f1(", "pow(", ",") or i + 1 == len(toks)
+                                        or toks[i + 1] in (")", ",")) for i in range(len(toks)))
+    if m["k"] != "skip" and "custom_unit_env" not in rec["tags"] and not (cls == "ill" and (m["k"] == "raise" or edge)):
         mexp = out_value(m, fns)
         if mexp[0] in ("val", "raise"):
             o = obs_num_base(kind, text, rec["mdim"]) if mexp[0] == "val" else obs_num(kind, text, None)
@@ -706,7 +710,7 @@ def plan(t, sd=0):
     return [("num", 5, False, NUM_CFGS, 4), ("num", 7, True, NUM_CFGS, 99),
             ("log", 4, False, LOG_CFGS, 3), ("log", 6, True, [c for c in LOG_CFGS if c not in deep], 99),
             ("log", 7, True, deep, 99),
-            ("tmpl", 6, False, TMPL_CFGS, 6)], {"num": 6000, "log": 6000}
+            ("tmpl", 6, False, TMPL_CFGS, 5)], {"num": 6000, "log": 6000}
 
 
 def run(replay=None):
@@ -801,6 +805,7 @@ def run(replay=None):
         x["_embed"] = (i + sd) % every == 0
     res = C.pmap(replay_record, recs)
     classes = {}
+    features = {}
     nontrivial = set()
     evaluations = 0
     fails_by_tag = {}
@@ -808,6 +813,16 @@ def run(replay=None):
     for rec, outs in zip(recs, res):
         key = rec["mode"] + ":" + rec["cls"]
         classes[key] = classes.get(key, 0) + 1
+        # which branches of the spec the explored strings took (classes, named deviations, machine outcomes)
+        feats = [rec["mode"] + ":tag:" + tg for tg in rec["tags"]]
+        if rec["mode"] == "log":
+            feats += ["log:ideal:" + (rec["ideal"] or "-"), "log:machine:" + rec["mach"]]
+        elif rec["mode"] == "num":
+            feats += ["num:machine:" + rec["mach"]["k"]] + ["num:expect:" + rq["out"]["k"] for rq in rec["reqs"]]
+        else:
+            feats += ["tmpl:machine:" + sg["k"] for sg in rec["mach"]] + ["tmpl:ideal:" + sg["k"] for sg in rec["ideal"]]
+        for ft in set(feats):
+            features[ft] = features.get(ft, 0) + 1
         if rec["cls"] in ("value", "raise") and len(rec["s"]) >= 3:
             nontrivial.add((rec["mode"], rec["ci"], tuple(rec["s"])))
         for o in outs:
@@ -847,6 +862,7 @@ def run(replay=None):
         "samples": samples,
         "exhaustive": True,
         "classes": classes,
+        "spec_branches_taken": dict(sorted(features.items())),
         "tlc_runs": per_run,
         "tlc_refines": "ok" if not refines_bad else "counterexample",
         "known_finding_cases": dict(V.findings.hits),
